@@ -1,6 +1,7 @@
 package kaisim
 
 import (
+	"os"
 	"testing"
 
 	"pgregory.net/rapid"
@@ -202,7 +203,12 @@ func init() {
 		Oracles: func() []Oracle { return nil },
 	}
 	Props["C20"] = PropDef{
-		Gen:     GenC20Script,
+		Gen: func(t *rapid.T, thorough bool) *Script {
+			if chance(t, "operator", 6) || os.Getenv("KAISIM_C20_PROFILE") == "operator" {
+				return GenC20OpScript(t, thorough)
+			}
+			return GenC20Script(t, thorough)
+		},
 		Oracles: func() []Oracle { return nil },
 	}
 	Props["C02"] = PropDef{
